@@ -366,3 +366,13 @@ func litOther(l Lit, c string) string {
 	}
 	return ""
 }
+
+// RootsAnyDeep: some deep origin of v satisfies pred.
+func (P *Program) RootsAnyDeep(v ssa.Value, pred func(ssa.Value) bool) bool {
+	for _, r := range P.ResolveDeep(v) {
+		if pred(r) {
+			return true
+		}
+	}
+	return false
+}
